@@ -82,9 +82,43 @@ func newVecOracle(d *sx.Dump, prop string, sv models.IndexSchemaValue) *vecOracl
 		if cb, ok := o.graph.Other["_productQuantizerFlatCentroids"]; ok {
 			o.mode = "pq"
 			o.centroids = sx.Floats(cb)
+			o.checkCentroidTable()
 		}
 	}
 	return o
+}
+
+// checkCentroidTable compares the persisted centroid-to-centroid distance table of a trained product
+// quantiser (what point-to-point distances are looked up from while the graph is built and pruned)
+// with the metric evaluated on the persisted centroids themselves, including the diagonal.
+func (o *vecOracle) checkCentroidTable() {
+	tb, ok := o.graph.Other["_productQuantizerCentroidDists"]
+	if !ok {
+		o.notes = append(o.notes, "product quantiser is trained (centroids persisted) but the centroid distance table is missing")
+		return
+	}
+	table := sx.Floats(tb)
+	k, ns, sl := o.numCentroids, o.numSub, o.subLen
+	if len(table) != ns*k*k || len(o.centroids) != ns*k*sl {
+		o.notes = append(o.notes, fmt.Sprintf("product quantiser tables have lengths %d / %d, expected %d / %d", len(table), len(o.centroids), ns*k*k, ns*k*sl))
+		return
+	}
+	for i := 0; i < ns; i++ {
+		for a := 0; a < k; a++ {
+			for b := 0; b < k; b++ {
+				ca := o.centroids[i*k*sl+a*sl : i*k*sl+(a+1)*sl]
+				cb := o.centroids[i*k*sl+b*sl : i*k*sl+(b+1)*sl]
+				want := model.Metric(o.pqMetric, ca, cb)
+				got := float64(table[i*k*k+a*k+b])
+				if math.Abs(got-want.V) > want.Bound()+1e-30 {
+					o.notes = append(o.notes, fmt.Sprintf("product quantiser (%s): persisted distance between centroids %d and %d of sub-vector %d is %g, the metric on the persisted centroids gives %g", o.pqMetric, a, b, i, got, want.V))
+					if len(o.notes) >= 3 {
+						return
+					}
+				}
+			}
+		}
+	}
 }
 
 func (o *vecOracle) trained() bool { return o.mode != "float" }
@@ -163,7 +197,7 @@ func (o *vecOracle) dist(query []float32, id uuid.UUID, vec []float32) (d model.
 // candidates lists live points with the field (and inside filter) with their
 // expected distances, sorted ascending.
 func (o *vecOracle) candidates(m *model.Model, query []float32, filter map[uuid.UUID]bool) ([]model.Cand, []string) {
-	var problems []string
+	problems := append([]string{}, o.notes...)
 	cands := m.Candidates(o.prop, o.dim, filter, func(id uuid.UUID, v []float32) model.Dist {
 		d, p := o.dist(query, id, v)
 		if p != "" && len(problems) < 5 {
